@@ -241,6 +241,36 @@ public:
         --depth;
     }
 
+    // a vector appended to a case format later on: if the next field is not `name` (or the input ends) the vector is
+    // empty, so older replay files still parse
+    template <class T>
+    void optionalVec(const char* name, std::vector<T>& v)
+    {
+        if (!writing)
+        {
+            std::streampos pos = in.tellg();
+            std::string line, first;
+            while (std::getline(in, line))
+            {
+                size_t p = line.find_first_not_of(" \t\r");
+                if (p != std::string::npos && line[p] != '#')
+                {
+                    std::istringstream ls(line);
+                    ls >> first;
+                    break;
+                }
+            }
+            in.clear();
+            in.seekg(pos);
+            if (first != name)
+            {
+                v.clear();
+                return;
+            }
+        }
+        vec(name, v);
+    }
+
     template <class T>
     void numvec(const char* name, std::vector<T>& v)
     {
